@@ -66,10 +66,19 @@ def generate(rng):
     long_h = d["_k"] > 6
     m, h = gen_hedger(rng, "h0", "m0", d, pkind, H=H, listed=False,
                       kinds=(["linear", "mlp", "mlp"] if long_h else ["linear", "mlp", "mlp", "sin", "pf_mlp"]),
-                      state=(rng.chance(0.8) if long_h else rng.chance(0.6)), crit="c0", smooth=True)
+                      state=(True if d["_k"] > 25 else (rng.chance(0.8) if long_h else rng.chance(0.6))), crit="c0", smooth=True)
     m["dtype"] = "float64"
     world = {"primaries": [prim], "derivatives": derivs, "models": [m], "criteria": [crit], "hedgers": [h]}
     n = rng.choice([2, 3, 5, 8])
+    if d["_k"] > 25:
+        # hundreds of recurrent steps amplify rounding chaotically: the loss as a function of the parameters is numerically
+        # noisy at every h, so no finite-difference oracle exists there (three thorough-tier passes alarmed on it). What is
+        # checked over long horizons is the structure of the graph: every step's prev_hedge input is the previous output
+        # *tensor* (d x_i / d y_{i-1} = 1), i.e. back-propagation reaches through all the links.
+        ops = [{"op": "simulate", "n_paths": rng.choice([2, 3]), "torch_seed": rng.seed31()}]
+        for _ in range(rng.randint(1, 3)):
+            ops.append({"op": "seam", "hedge": hedge, "seed": rng.seed31(), "mode": rng.choice(["train", "eval"])})
+        return {"profile": "c14", "env": {"default_dtype": "float32"}, "world": world, "ops": ops}
     if hedge is None and rng.chance(0.1) and "in" in m:
         # a second stock of lower precision heads the hedge list (float32 next to the float64 underlier); the model is float64.
         # Only frozen-batch operations here: the extra stock is simulated alongside by the caller
